@@ -104,16 +104,42 @@ func getAliasDependency(charts []*chart.Chart, dep *chart.Dependency) *chart.Cha
 			continue
 		}
 
-		out := *c
-		md := *c.Metadata
-		out.Metadata = &md
-
+		out := copyChart(c)
 		if dep.Alias != "" {
-			md.Name = dep.Alias
+			out.Metadata.Name = dep.Alias
 		}
-		return &out
+		return out
 	}
 	return nil
+}
+
+// copyChart returns a copy of c that owns its metadata, its requirement records and,
+// recursively, its subcharts (file contents and values are shared). The same chart can be
+// required several times under different aliases; processDependencyEnabled renames and flags
+// requirement records in place and re-parents subcharts, so every copy needs its own.
+func copyChart(c *chart.Chart) *chart.Chart {
+	out := *c
+	if c.Metadata != nil {
+		md := *c.Metadata
+		if c.Metadata.Dependencies != nil {
+			md.Dependencies = make([]*chart.Dependency, len(c.Metadata.Dependencies))
+			for i, d := range c.Metadata.Dependencies {
+				if d != nil {
+					r := *d
+					md.Dependencies[i] = &r
+				}
+			}
+		}
+		out.Metadata = &md
+	}
+	subcharts := make([]*chart.Chart, 0, len(c.Dependencies()))
+	for _, d := range c.Dependencies() {
+		if d != nil {
+			subcharts = append(subcharts, copyChart(d))
+		}
+	}
+	out.SetDependencies(subcharts...)
+	return &out
 }
 
 // processDependencyEnabled removes disabled charts from dependencies
